@@ -234,7 +234,16 @@ def _rekey(case):
         pass
 
     class Client(Hooks, transport.SSHClientTransport):
+        verified = 0
+
         def verifyHostKey(self, hostKey, fingerprint):
+            # "late_verify": the FIRST verification completes only after the server's NEWKEYS has arrived (a user
+            # answering a prompt); later ones (re-keys: the key is known by then) complete synchronously
+            self.verified += 1
+            if case.get("late_verify") and self.verified == 1:
+                d = defer.Deferred()
+                pending.append(d)
+                return d
             return defer.succeed(True)
 
         def connectionSecure(self):
@@ -288,11 +297,15 @@ def _rekey(case):
         raise Stuck()
 
     other = {"c": server, "s": client}
+    pending = []
     limbo = []
     trouble = []
 
     def drive():
         settle()
+        while pending:
+            pending.pop(0).callback(True)
+            settle()
         for p in sides.values():
             p.setService(Recorder(p.got))
             del p.hist[:], p.got[:]
@@ -362,6 +375,15 @@ def _expected_version(case):
 
 
 def _oracle_rekey(case, obs):
+    f = _oracle_rekey0(case, obs)
+    if f is not None and case.get("late_verify") and f.tag != "message-between-newkeys-uses-old-keys" \
+            and any(o[0] == "rekey" for o in case["script"]):
+        f.reason = "[first host-key verification completed after the server's NEWKEYS] " + f.reason
+        f.tag = "rekey-after-late-hostkey-verification"
+    return f
+
+
+def _oracle_rekey0(case, obs):
     tr = _TR.get(stable_hash(case)) or {}
     if tr.get("limbo"):
         # a message allowed during key exchange sent after our own NEWKEYS and before the peer's: RFC 4253 7.3 wants
@@ -546,7 +568,8 @@ def gen(rng, tier):
                     if second:
                         script += [["rekey", second]] + ([["pump", second, 1]] if rng.random() < 0.5 else []) + burst(3) \
                                   + [["settle"]] + burst(4)
-                    cases.append({"kind": "rekey", "comp": comp, "seed": rng.randrange(1 << 30), "script": script})
+                    cases.append({"kind": "rekey", "comp": comp, "seed": rng.randrange(1 << 30), "script": script,
+                                  **({"late_verify": True} if (k % 3 == 0) else {})})
     # re-keying while payloads flow: real client/server pair, key exchanges started at random points on either side
     for i in range(60 if quick else 1500):
         script = []
@@ -564,7 +587,8 @@ def gen(rng, tier):
                 script.append(["settle"])
             else:
                 script.append(["pump", side, rng.choice([1, 1, 2, 3, 50])])
-        cases.append({"kind": "rekey", "comp": rng.random() < 0.4, "seed": rng.randrange(1 << 30), "script": script})
+        cases.append({"kind": "rekey", "comp": rng.random() < 0.4, "seed": rng.randrange(1 << 30), "script": script,
+                      **({"late_verify": True} if rng.random() < 0.3 else {})})
     return cases
 
 
@@ -604,6 +628,11 @@ def corpus():
         {"kind": "rekey", "comp": True, "seed": 5, "script":
             [["send", "c", 94, "aa01"], ["send", "s", 95, "bb01"], ["rekey", "s"], ["settle"], ["send", "c", 94, "aa02"],
              ["send", "s", 95, "bb02"], ["rekey", "c"], ["settle"], ["send", "c", 94, "aa03"], ["send", "s", 95, "bb03"]]},
+        # first host-key verification completes after the server's NEWKEYS; then a re-key (verification synchronous)
+        {"kind": "rekey", "comp": False, "seed": 6, "late_verify": True, "script":
+            [["send", "c", 94, "cc01"], ["rekey", "c"], ["settle"], ["send", "c", 94, "cc02"], ["send", "s", 95, "dd02"]]},
+        {"kind": "rekey", "comp": True, "seed": 7, "late_verify": True, "script":
+            [["send", "s", 95, "dd01"], ["rekey", "s"], ["send", "c", 94, "cc02"], ["settle"], ["send", "s", 95, "dd03"]]},
         # known finding: sendDebug between our NEWKEYS and the peer's
         {"kind": "rekey", "comp": True, "seed": 800376457, "script":
             [["rekey", "s"], ["pump", "s", 3], ["pump", "c", 3], ["pump", "s", 1], ["debug", "c", "0d9e"]]},
@@ -692,7 +721,8 @@ SPEC = Spec(
          "chosen independently of the incoming ones (incl. none on one side only); preambles around the 4 KB limit; 60 "
          "(thorough 1500) re-key histories on a real client/server pair over in-memory transports: 3-15 ops of send "
          "(service types 50-255) / sendDebug / sendKexInit on either side / deliver the next k packets / run to rest, key "
-         "exchanges run for real; structured zlib/none scripts with payloads before, during and after 1 or 2 completed "
+         "exchanges run for real, in 30% of them the client's first host-key verification completes only after the server's "
+         "NEWKEYS (later ones synchronously); structured zlib/none scripts with payloads before, during and after 1 or 2 completed "
          "re-keys started by either side; the full (outgoing cipher) x (sender's own incoming cipher) product with 8 "
          "payloads covering consecutive lengths (all residues mod 16 per pair of block sizes); non-trivial = something delivered or a disconnect; distinct by (case, observation)",
     trusted=["hand-written model coq/C35/Model.v (tied by this correspondence run only)",
